@@ -363,7 +363,7 @@ pub fn run(o: &Opts, stats: &mut Stats) -> Option<usize> {
         if c.script.is_some() {
             vec![Pass { depth: 14, max_dev: 0 }]
         } else if thorough {
-            vec![Pass { depth: 7, max_dev: 4 }]
+            vec![Pass { depth: 8, max_dev: 4 }]
         } else {
             vec![Pass { depth: 6, max_dev: 3 }]
         }
